@@ -6,6 +6,7 @@ CONSTANTS
   EmptyGuard = FALSE
   MaxLines = 0
   MinLen = 1
+  EmitProbes = TRUE
   MaxLen = 3
 VIEW View
 PROPERTY Refines
